@@ -325,11 +325,19 @@ def MonState.observe (m : MonState) (op : Op) (evs : List String) (post : Option
               -- this slot is looked up on the replacement from now on (C07; C01 has the same through affinity_refines)
               if !(m.bound.all fun (k, sl) => sl != slot || lookup pv.affinity k == some sc) then
                 fails := fails ++ [("C07", "swap_takes_over")]
+              -- … and so do the keys it stands in for: a temporary mapping to the old connection points at the
+              -- replacement afterwards (whether or not any key is bound to the channel itself)
+              if !(v.fallback.all fun (k, c) => c != old.subConn || lookup pv.fallback k == some sc) then
+                fails := fails ++ [("C07", "swap_takes_over"), ("C08", "fallback_follows_refresh")]
             | none => fails := fails ++ [("C07", "swap_takes_over")]
           | _, _ => pure ()
           m := { m with removedOnce := m.removedOnce ++ removes }
         else
           if !removes.isEmpty || !states.isEmpty then fails := fails ++ [("C07", "old_serves_until_ready")]
+          -- C04: a replacement of an unfinished refresh does not count: whatever it reports short of READY, nothing is published
+          if !states.isEmpty then fails := fails ++ [("C04", "replacement_not_counted")]
+          -- C03.5 nothing but a completed refresh removes a connection
+          if !removes.isEmpty then fails := fails ++ [("C03", "remove_only_after_swap")]
           -- a replacement whose connection attempt failed goes IDLE and waits to be told to connect again:
           -- left alone it could never become READY and the channel would never be refreshed again (F23)
           if st == .idle && !evs.contains s!"connect sc={sc}" then fails := fails ++ [("C07", "replacement_kept_connecting")]
